@@ -1,7 +1,8 @@
 (* The dtype reading regenerated from pymoto/modules/linalg.py (GenC07.LinDtypeGen: the dtype every output buffer of
    SystemOfEquations._response is allocated with, the dtype of every value stored into it, the dtypes handed to the inner
    LinSolve, the dtype of the StaticCondensation result) equals the committed model (Model/LinDtype.v) for ALL
-   arguments, by computation; and with the generated terms themselves every store is lossless. *)
+   arguments (case analysis over the dtypes, so that a reordering of the operands of np.result_type is accepted); and with
+   the generated terms themselves every store is lossless. *)
 From Coq Require Import List Bool.
 From Pymoto Require Import Model.LinDtype Proofs.LinDtypeP.
 From GenC07 Require Import LinDtypeGen.
@@ -12,19 +13,19 @@ Variable sol : dtype -> dtype -> dtype.
 Variables dA dBf dXp : dtype.
 
 Lemma gen_soe_x_buf_eq : gen_soe_x_buf sol dA dBf dXp = soe_x_buf dA dBf dXp.
-Proof. reflexivity. Qed.
+Proof. destruct dA, dBf, dXp; reflexivity. Qed.
 Lemma gen_soe_b_buf_eq : gen_soe_b_buf sol dA dBf dXp = soe_b_buf dA dBf dXp.
-Proof. reflexivity. Qed.
+Proof. destruct dA, dBf, dXp; reflexivity. Qed.
 Lemma gen_soe_x_stores_eq : gen_soe_x_stores sol dA dBf dXp = soe_x_stores sol dA dBf dXp.
-Proof. reflexivity. Qed.
+Proof. destruct dA, dBf, dXp; reflexivity. Qed.
 Lemma gen_soe_b_stores_eq : gen_soe_b_stores sol dA dBf dXp = soe_b_stores sol dA dBf dXp.
-Proof. reflexivity. Qed.
+Proof. destruct dA, dBf, dXp; reflexivity. Qed.
 Lemma gen_soe_inner_eq : gen_soe_inner sol dA dBf dXp = (soe_inner_mat dA, soe_inner_rhs dA dBf dXp).
-Proof. reflexivity. Qed.
+Proof. destruct dA, dBf, dXp; reflexivity. Qed.
 Lemma gen_sc_out_eq : gen_sc_out sol dA = sc_out_dtype sol dA.
-Proof. reflexivity. Qed.
+Proof. destruct dA; reflexivity. Qed.
 Lemma gen_sc_inner_eq : gen_sc_inner sol dA = (sc_inner_mat dA, sc_inner_rhs dA).
-Proof. reflexivity. Qed.
+Proof. destruct dA; reflexivity. Qed.
 End Bridge.
 
 (* independent of the committed model: the GENERATED buffers hold the GENERATED stores without loss, for all dtypes *)
